@@ -207,6 +207,15 @@ pub fn record(db: &Db, src: &str, id: usize, ids: &Ids, with_tokens: bool) -> Va
     rec
 }
 
+/// resident set of this process in GB (0 if /proc cannot be read)
+fn resident_gb() -> f64 {
+    std::fs::read_to_string("/proc/self/statm")
+        .ok()
+        .and_then(|s| s.split_whitespace().nth(1).and_then(|p| p.parse::<f64>().ok()))
+        .map(|pages| pages * 4096.0 / 1e9)
+        .unwrap_or(0.0)
+}
+
 /// `conform lang-trace --in FILE --out FILE --ids vocab/ids.json [--tokens]`
 /// FILE holds one JSON string per line.
 pub fn trace(args: &[String]) -> i32 {
@@ -250,7 +259,27 @@ pub fn trace(args: &[String]) -> i32 {
     while n < total {
         // the first record also pays for building the database
         let wait = std::time::Duration::from_secs(if n == start { patience + 60 } else { patience });
-        match rx.recv_timeout(wait) {
+        // (waited for in slices: a query under which the process grows beyond 6 GB is given up at once -- a lexer or parser
+        // that does not terminate allocates gigabytes per second, and nothing else on the machine would survive the wait)
+        let t0 = std::time::Instant::now();
+        let mut got = None;
+        let mut grown = false;
+        while t0.elapsed() < wait {
+            match rx.recv_timeout(std::time::Duration::from_millis(100)) {
+                Ok(rec) => {
+                    got = Some(rec);
+                    break;
+                }
+                Err(std::sync::mpsc::RecvTimeoutError::Timeout) => {
+                    if resident_gb() > 6.0 {
+                        grown = true;
+                        break;
+                    }
+                }
+                Err(_) => break,
+            }
+        }
+        match got.ok_or(()) {
             Ok(rec) => {
                 out.line(&rec);
                 n += 1;
@@ -258,7 +287,7 @@ pub fn trace(args: &[String]) -> i32 {
             Err(_) => {
                 let src: String = serde_json::from_str(&lines[n]).unwrap_or_else(|_| lines[n].clone());
                 out.line(&json!({"id": n + 1, "text": src, "src": char_names(&src), "res": [], "apps": [], "shown": [], "lookups": [], "desc": [],
-                                 "panic": format!("no result after {} s: the evaluation does not terminate", patience),
+                                 "panic": if grown { "memory beyond 6 GB: the evaluation does not terminate".to_string() } else { format!("no result after {} s: the evaluation does not terminate", patience) },
                                  "toks": [], "toks_ok": false, "leaves": [], "tree": [], "tree_ok": false, "deep": false, "timeout": true}));
                 n += 1;
                 resume = Some(n);
